@@ -162,3 +162,10 @@ Proof.
   apply orb_false_iff in E as (A & B). unfold qltb in A, B. apply negb_false_iff in A, B.
   apply Qle_bool_iff in A, B. auto.
 Qed.
+
+(* a pesticide treatment can leave more hosts in the mortality cohorts than are
+   infected; mortality then raises a run-time error (known finding) *)
+Lemma pesticide_then_mortality_refuted :
+  treat_pesticide Ratio (1 # 2) (mkcell 0 [] 2 0 0 [1; 1] 0 2) = Ok (mkcell 0 [] 1 0 1 [1; 1] 0 2) /\
+  apply_mortality (mkcell 0 [] 1 0 1 [1; 1] 0 2) 1 0 = Err RuntimeError.
+Proof. vm_compute. split; reflexivity. Qed.
